@@ -156,6 +156,9 @@ fn parse_position(args: String, rep_table: &mut RepetitionTable) -> Option<Game>
     }
     else { return None; }
 
+    //The base position is part of the game history too
+    rep_table.insert(game.zobrist_hash);
+
     let mut split = rest.split(" ").peekable();
 
     if *split.peek().unwrap() == "moves" {
